@@ -4,6 +4,8 @@ from harness import components as hc
 
 
 def run(run):
+    from pyvc import leancheck
+    leancheck.check(run, 'Perm.lean', 'the generated condition set is invariant under permutation of the samples')
     symrun.class_formulas(run)                                   # (b)-(e): call structure, formulas, symmetry flags, completeness
     hc.pair_helpers(run, clauses=['pairs', 'appended'])          # (a): bounded run-time contract of the generic pair helpers
 
